@@ -117,6 +117,10 @@ def build_files(variant, extra_pyproject=None):
             f2 += "@pytest.mark.xfail(False, reason='not expected to fail')\n"
         f2 += f"def test_{n}():\n    {src}\n\n"
     files = {"test_one.py": f1, "test_two.py": f2, "helper.py": HELPER}
+    # xfail marks that a test inherits (module-level pytestmark, mark on the class): every test of these two files is
+    # marked xfail, so no session may change them (seeded round 6)
+    files["test_three.py"] = head + "pytestmark = pytest.mark.xfail(reason='whole module')\n\n\ndef test_module_mark_fix():\n    assert 1 == snapshot(2)\n\n\ndef test_module_mark_create():\n    assert 'x' == snapshot()\n"
+    files["test_four.py"] = head + "@pytest.mark.xfail\nclass TestMarked:\n    def test_class_mark_fix(self):\n        assert 1 == snapshot(2)\n\n    def test_class_mark_create(self):\n        assert 'x' == snapshot()\n"
     files[f".inline-snapshot/external/{sha(PERSISTED)}.txt"] = PERSISTED
     files[f".inline-snapshot/external/{sha(UNUSED)}.txt"] = UNUSED
     files[".inline-snapshot/external/.gitignore"] = "# ignore all snapshots which are not referred in the source\n*-new.*\n"
@@ -400,6 +404,10 @@ def check_session(cfg, variant, out, C):
                     out["violations"].append({"kind": "approved-change-not-applied", "detail": {**base, "site": name, "old": oa, "new": na}, "witness": wit, "finding": None})
     finally:
         ns.close()
+    for fname in ("test_three.py", "test_four.py"):
+        C["inherited_xfail_files_checked"] = C.get("inherited_xfail_files_checked", 0) + 1
+        if r.before[fname] != r.after.get(fname):
+            out["violations"].append({"kind": "xfail-test-snapshot-rewritten", "detail": {**base, "site": fname + " (xfail mark inherited from the module / the class)", "diff": _diff(r, fname)}, "witness": wit, "finding": None})
     # helper file and persisted externals
     if r.before["helper.py"] != r.after.get("helper.py"):
         out["violations"].append({"kind": "file-modified-without-approval", "detail": {**base, "changed": ["helper.py"]}, "witness": wit, "finding": None})
